@@ -9,7 +9,8 @@
  *   - `platform_timer_start` is wrapped: the real 2 s timer thread is never started (deterministic ticks);
  *   - verif_backend_cycle_hook (H1) leaves the loop when the script is exhausted.
  *
- * case lines:   mode net|console        meh ok|raise|recurse        script <oid> <kind> <ops>
+ * case lines:   preload ok,err,..|epilog-err (preload_objects() with scripted master epilog()/preload())
+ *               mode net|console        meh ok|raise|recurse        script <oid> <kind> <ops>
  *               clone <oid> /c09/obj    vapply <oid> do_ops <ops>   step <action>...     run
  * actions:      tick[:<dt>] conn:<c> send:<c>:<text> close:<c> reset:<c> cin:<text> idle   ('/' in text = newline)
  *               several actions in one step = several events reported by ONE poll, delivered in the order written
@@ -489,6 +490,16 @@ static int c09_cmd (char *line)
       object_t *reg = vh_obj ("reg");
       if (reg)
         vh_apply_str (reg, "set_meh", 1, a, 0, 0);
+      return 1;
+    }
+  if (n == 2 && !strcmp (tok[0], "preload"))
+    {
+      /* main() calls preload_objects() before backend(): epilog() names the files, preload() loads each */
+      char *a[2] = { "preload", tok[1] };
+      object_t *reg = vh_obj ("reg");
+      if (reg)
+        vh_apply_str (reg, "set_script", 2, a, 0, 0);
+      preload_objects (0);
       return 1;
     }
   if (n == 4 && !strcmp (tok[0], "script"))
